@@ -25,6 +25,7 @@ type FlowCfg struct {
 	VisitLines bool // every node starts with a line printing all visit counts
 	Fuel       int  // upper bound of backward jumps
 	NoSets     bool
+	BadJumps   int // percent of jumps that name a node that does not exist (a fault)
 }
 
 func DefaultFlow() FlowCfg {
@@ -207,6 +208,10 @@ func (g *flowGen) jump(target int) []*hast.Stmt {
 	r := g.r
 	st := &hast.Stmt{K: hast.SJump, ID: g.id()}
 	title := g.titles[target]
+	if g.cfg.BadJumps > 0 && r.Intn(100) < g.cfg.BadJumps {
+		title = "Nowhere"
+		target = len(g.titles) // treated as a forward jump: no fuel guard needed, it fails
+	}
 	if r.Chance(1, 3) {
 		// by expression
 		switch r.Intn(3) {
